@@ -390,7 +390,7 @@ func suiteAlias(rn *runner, r *rng, tier string) {
 	bigStreamCase(rn, r.fork(), "holdall", 3, 1, 1<<20, "alias")
 	if tier == "thorough" {
 		for k := 0; k < 6; k++ {
-			bigStreamCase(rn, r.fork(), "holdall", 3+k, 1+k%4, []int{0, 1 << 20, 4096}[k%3], "alias")
+			bigStreamCase(rn, r.fork(), "holdall", 3+k, 1+k%4, []int{0, 1 << 20, 3 << 20}[k%3], "alias")
 		}
 	}
 	n := 800
